@@ -625,6 +625,11 @@ class Executor:
     def unop(self, op, v):
         if isinstance(v, SBag):
             return _bag_like(v, lambda p, f=v.val: self.unop(op, f(p)), v.kind)
+        if isinstance(v, SArr) and isinstance(op, (ast.USub, ast.UAdd)) \
+                and snap_finite(v) is not None:
+            out = SArr(v.shape, lambda idx, f=snap(v): self.unop(op, f(idx)), v.kind)
+            out.finite = snap_finite(v)
+            return out
         if isinstance(v, SArr):
             return SArr(v.shape, lambda idx, f=snap(v): self.unop(op, f(idx)),
                         'bool' if isinstance(op, (ast.Not, ast.Invert)) and v.kind == 'bool'
@@ -802,7 +807,20 @@ class Executor:
             if v.ndim == nd:
                 return fv(idx)
             return fv(idx[nd - v.ndim:])     # trailing-axis broadcast
-        return SArr(shape, lambda idx: f(el(a, fa, idx), el(b, fb, idx)), kind)
+        out = SArr(shape, lambda idx: f(el(a, fa, idx), el(b, fb, idx)), kind)
+        # NaN propagation: an element computed from a non-finite operand is non-finite
+        na = snap_finite(a) if isinstance(a, SArr) else None
+        nb = snap_finite(b) if isinstance(b, SArr) else None
+        if na is not None or nb is not None:
+            def fin(idx, na=na, nb=nb):
+                cs = []
+                if na is not None:
+                    cs.append(to_bool(na(idx if a.ndim == nd else idx[nd - a.ndim:])))
+                if nb is not None:
+                    cs.append(to_bool(nb(idx if b.ndim == nd else idx[nd - b.ndim:])))
+                return z3.And(*cs) if len(cs) > 1 else cs[0]
+            out.finite = fin
+        return out
 
     def ex_Compare(self, node, st):
         out = []
@@ -851,6 +869,16 @@ class Executor:
         if isinstance(a, (SArr, SSeq)) or isinstance(b, (SArr, SSeq)):
             r = self.lift2(lambda x, y: self.compare(op, x, y, st), a, b)
             r.kind = 'bool'
+            fin = getattr(r, 'finite', None)
+            if isinstance(r, SArr) and fin is not None:
+                # IEEE comparisons with NaN: every ordering / equality test is False, != is True
+                # (non-finite elements are modelled as NaN; +-inf inputs are outside the model)
+                cmp = r._fn
+                if isinstance(op, ast.NotEq):
+                    r._fn = lambda idx: z3.Or(z3.Not(to_bool(fin(idx))), to_bool(cmp(idx)))
+                else:
+                    r._fn = lambda idx: z3.And(to_bool(fin(idx)), to_bool(cmp(idx)))
+                r.finite = None
             return r
         if isinstance(a, str) or isinstance(b, str):
             if isinstance(a, str) and isinstance(b, str):
